@@ -70,6 +70,28 @@ func (w *World) foldRound(overlay map[string][]byte, st *foldState) map[string][
 	if len(out) > 0 {
 		return out
 	}
+	// a struct parameter that is only used field by field is passed as one parameter per field (sroa.go)
+	for _, p := range w.Pkgs {
+		if tab.Funcs[relOfPkg(p.Types)] == nil {
+			continue
+		}
+		var files []*ast.File
+		for _, f := range p.Syntax {
+			if !strings.HasSuffix(w.Fset.Position(f.Pos()).Filename, "_test.go") {
+				files = append(files, f)
+			}
+		}
+		for f := range promoteStructParams(w.Fset, p.Types, p.TypesInfo, files, tab.Funcs[relOfPkg(p.Types)]) {
+			var buf bytes.Buffer
+			if err := format.Node(&buf, w.Fset, f); err == nil {
+				out[w.Fset.Position(f.Pos()).Filename] = buf.Bytes()
+			}
+		}
+		if len(out) > 0 {
+			foldNotes = append(foldNotes, fmt.Sprintf("struct parameters: a by-value struct parameter of an unexported function of %s that is only used field by field is read as one parameter per field", relOfPkg(p.Types)))
+			return out
+		}
+	}
 	// method values of new unexported types (`filler.insert` handed to a function: a closure rewritten as a method of a
 	// small struct) are first written as the closure they stand for - func(args) { return filler.insert(args) } - so that
 	// the method has plain calls only and is folded like any other new helper in the next round
